@@ -134,7 +134,7 @@ class ShellSpec:
     """Plain description of a shell; builds the gbasis object and the protocol tokens."""
 
     def __init__(self, l, center, exps, coeffs, sph=False, cart=None, sphord=None, unit_norm=True,
-                 icenter=None, via_update=False):
+                 icenter=None, via_update=False, share=None):
         self.l = int(l)
         self.center = [float(c) for c in center]
         self.exps = [float(e) for e in exps]
@@ -150,11 +150,14 @@ class ShellSpec:
         # via_update: the gbasis object is first constructed with other exponents / coefficients / centre and then brought to
         # these parameters through the public setters followed by assign_norm_cont() (must be indistinguishable)
         self.via_update = bool(via_update)
+        # share: shells of one basis with the same key are built from the very same exponent-array object (what make_contractions
+        # does for the parts of an SP shell and for every atom of an element)
+        self.share = share
 
     def copy(self, **kw):
         d = dict(l=self.l, center=list(self.center), exps=list(self.exps), coeffs=self.coeffs.copy(),
                  sph=self.sph, cart=self.cart, sphord=self.sphord, unit_norm=self.unit_norm,
-                 icenter=self.icenter, via_update=self.via_update)
+                 icenter=self.icenter, via_update=self.via_update, share=self.share)
         d.update(kw)
         return ShellSpec(**d)
 
@@ -190,7 +193,7 @@ class ShellSpec:
             t += list(self.sphord)
         return t
 
-    def make(self):
+    def make(self, shared_exps=None):
         """The real gbasis shell object (a subclass when a custom convention is requested)."""
         from gbasis.contractions import GeneralizedContractionShell
 
@@ -227,19 +230,20 @@ class ShellSpec:
             sh.assign_norm_cont()
             return sh
         return cls(self.l, np.array(self.center, dtype=float), self.coeffs.copy(),
-                   np.array(self.exps, dtype=float), "spherical" if self.sph else "cartesian",
-                   icenter=self.icenter)
+                   np.array(self.exps, dtype=float) if shared_exps is None else shared_exps,
+                   "spherical" if self.sph else "cartesian", icenter=self.icenter)
 
     def describe(self):
         return {"l": self.l, "center": self.center, "exps": self.exps,
                 "coeffs": self.coeffs.tolist(), "sph": self.sph, "cart": self.cart,
-                "sphord": self.sphord, "unit_norm": self.unit_norm, "via_update": self.via_update}
+                "sphord": self.sphord, "unit_norm": self.unit_norm, "via_update": self.via_update, "share": self.share,
+                "icenter": self.icenter}
 
     @staticmethod
     def from_desc(d):
         return ShellSpec(d["l"], d["center"], d["exps"], d["coeffs"], d.get("sph", False),
                          d.get("cart"), d.get("sphord"), d.get("unit_norm", True),
-                         via_update=d.get("via_update", False))
+                         via_update=d.get("via_update", False), share=d.get("share"), icenter=d.get("icenter"))
 
 
 def basis_tokens(specs):
@@ -250,7 +254,16 @@ def basis_tokens(specs):
 
 
 def make_basis(specs):
-    return [s.make() for s in specs]
+    pool, out = {}, []
+    for s in specs:
+        if s.share is None or s.via_update:
+            out.append(s.make())
+        else:
+            key = (s.share, tuple(s.exps))
+            if key not in pool:
+                pool[key] = np.array(s.exps, dtype=float)
+            out.append(s.make(shared_exps=pool[key]))
+    return out
 
 
 def describe_basis(specs):
